@@ -73,6 +73,18 @@ inline std::string gen_text(Choices &c, Ctx &ctx)
 		break;
 	}
 	default: {
+		if (c.coin(35))
+		{
+			// number soup: the scanner state that a resumed call has to re-derive
+			static const char na[] = {'-', '+', '.', 'e', 'E', '0', '1', '9', 'I', 'i', '5', 'n'};
+			size_t n = 1 + c.pickn(10);
+			for (size_t k = 0; k < n; k++)
+				t += na[c.pickn(12)];
+			if (c.coin(50))
+				t = "[" + t + "]";
+			ctx.label("src_number_soup");
+			break;
+		}
 		size_t n = 1 + c.len(12);
 		for (size_t k = 0; k < n; k++)
 		{
